@@ -8,6 +8,7 @@ import re
 import typing
 
 from tools.lib import core
+from tools.checks import c09_keywords as KW
 
 PROP = 'C09'
 
@@ -25,7 +26,16 @@ MANIFEST = dict(
          'name (known finding F-STROP-HANDLER-UNVERIFIED); in a tree whose strop re-verifies its result (recognised by T1) the '
          'statement holds for every configuration with the validity conditions only (strop_sound_any_config), and '
          'strop_override_state says which case is live now; Python\'s reserved list covers keyword.kwlist+dir(builtins) of the '
-         'interpreter; TOTALITY: every non-empty string / every DSDL name gets a token for every type but `all` (strop_total_*, '
+         'interpreter; NOT A KEYWORD OF THE LANGUAGE: against committed independent tables (Gen/StropKeywords.v = '
+         'tools/checks/c09_keywords.py: ISO C11, ISO C++20 + alternative tokens, Python 3.12 kwlist) every keyword is reserved by the '
+         'regenerated configuration, no output is ever a keyword, every keyword comes back as a different token '
+         '(language_keywords_are_reserved, strop_never_keyword, keyword_is_stropped); no C/C++ output starts with `__` or `_[A-Z]` '
+         '(strop_never_und_reserved, C11 7.1.3). EXCLUDED, stated: (a) clause 3 ("returned unchanged") is claimed for ASCII '
+         'identifiers only (strop_id_*_ascii) -- DSDL names are ASCII and the encoder alphabet is ASCII by design, so `é` -> zX00E9; '
+         '(b) for cpp "unreserved" includes C++ [lex.name] (no `__` anywhere), so `__x`/`x__` are rewritten correctly; (c) an inner '
+         '`__` survives in cpp output (a__b; strop_cpp_no_dunder_refuted): the configuration has no such pattern, outside the '
+         'property\'s "under that language\'s configuration"; (d) Python soft keywords are legal identifiers and are not stropped. '
+         'The observable Language.filter_id is modelled (translated bodies; filter_id_is_model, filter_id_total_and_sound). TOTALITY: every non-empty string / every DSDL name gets a token for every type but `all` (strop_total_*, '
          'strop_dsdl_identifier, strop_outcomes); CACHE ISOLATION: the lru_cache key is regenerated (self, token, type; self by '
          'identity) and any interleaving of calls on any family of encoder configurations through the shared cache returns each '
          'encoder\'s own uncached result (lru_shared_transparent, two_encoders_isolated) -- also tested with two Language objects '
@@ -77,7 +87,11 @@ class Oracle:
         # independent of nunavut.lang.py: keywords and builtins of the interpreter that runs nunavut (computed by the harness)
         self.interpreter_reserved = set(dump.get('py_kw_builtins', []))
         if 'py' in self.cfg:
-            self.cfg['py']['reserved'] |= self.interpreter_reserved
+            self.cfg['py']['reserved'] |= self.interpreter_reserved | set(KW.PY_KEYWORDS)
+        # independent of properties.yaml: the ISO keyword tables (tools/checks/c09_keywords.py = Gen/StropKeywords.v)
+        for ln in ('c', 'cpp'):
+            if ln in self.cfg and shipped:     # an override that replaces reserved_identifiers drops them on purpose
+                self.cfg[ln]['reserved'] |= set(KW.C11_KEYWORDS) | set(KW.CPP20_KEYWORDS) | set(KW.CPP20_ALTERNATIVE_TOKENS)
 
     def pattern_hit(self, ln: str, ty: str, t: str) -> bool:
         pm = self.cfg[ln]['patterns']
@@ -187,7 +201,9 @@ def gen_cases(chk: core.Check, dump: dict) -> typing.Tuple[list, dict]:
         c = dump['langs'][ln]
         words = set(w for w in c['reserved'] if isinstance(w, str))
         if ln == 'py':
-            words |= set(dump.get('py_kw_builtins', []))   # the interpreter's own table, whatever nunavut.lang.py says
+            words |= set(dump.get('py_kw_builtins', [])) | set(KW.PY_KEYWORDS) | set(KW.PY_SOFT_KEYWORDS)
+        else:                                              # the ISO tables, whatever properties.yaml says
+            words |= set(KW.C11_KEYWORDS) | set(KW.CPP20_KEYWORDS) | set(KW.CPP20_ALTERNATIVE_TOKENS)
         words = sorted(words)
         for w in words:                                    # every reserved word verbatim, for every type
             for ty in TYPES:
@@ -275,6 +291,16 @@ def main(chk: core.Check, replay: typing.Optional[str] = None) -> int:
                        'broken': broken, 'translators': res.translator_msgs}, found_input=False)
         return chk.finish()
     oracle = Oracle(dump, shipped=True)
+    # self-tests of the committed independent tables
+    try:
+        coq_tab = open(os.path.join(core.COQ, 'theories', 'Gen', 'StropKeywords.v'), encoding='utf-8').read()
+    except OSError:
+        coq_tab = ''
+    if coq_tab != KW.coq_text():
+        broken.append('coq/theories/Gen/StropKeywords.v is not the table of tools/checks/c09_keywords.py')
+    if sorted(dump.get('kwlist', [])) != sorted(KW.PY_KEYWORDS):
+        broken.append('keyword.kwlist of the interpreter that runs nunavut (%s) differs from the committed Python %s table: %s'
+                      % (dump.get('python'), KW.PYTHON_VERSION, sorted(set(dump.get('kwlist', [])) ^ set(KW.PY_KEYWORDS))))
     missing = sorted(oracle.interpreter_reserved - set(w for w in dump['langs']['py']['reserved'] if isinstance(w, str)))
     if missing:
         broken.append('Python reserved list lacks keywords/builtins of the interpreter: %s' % ', '.join(missing[:12]))
@@ -327,6 +353,25 @@ def main(chk: core.Check, replay: typing.Optional[str] = None) -> int:
     for j, i in enumerate(sub_idx):
         if other[j] != impl[i]:
             bad_det.append((i, 'another process (PYTHONHASHSEED differs) returned %r' % other[j]))
+
+    # the observable takes any object: an object with a `name` attribute / a non-str must behave as filter_id(str) of its name
+    inst_cases, inst_expect = [], []
+    for ln in LANGS:
+        for w in ['if', 'foo', 'a b', '_A', 'None', '1x', 'é', 'int8_t']:
+            inst_cases.append([ln, 'any', {'named': w}])
+            inst_expect.append([ln, 'any', w])
+        for n in [0, 42, -7]:
+            inst_cases.append([ln, 'any', {'int': n}])
+            inst_expect.append([ln, 'any', str(n)])
+        inst_cases.append([ln, 'any', {'named': 12}])
+        inst_expect.append([ln, 'any', '12'])
+    ii, _ = run_impl(inst_cases)
+    ie, _ = run_impl(inst_expect)
+    im = [m[0] for m in run_model(exe, inst_expect)] if model is not None else ie
+    stats['instance_kind_cases'] = len(inst_cases)
+    for c, a, b, m in zip(inst_cases, ii, ie, im):
+        if a != b or a != m:
+            bad_model.append((-1, 'filter_id(%r) = %r but filter_id(str of its name) = %r, model %r' % (c, a, b, m), a))
 
     # several Language objects with different configurations in ONE process (both creation orders, two usage patterns):
     # each object must answer as a process that only ever created that one object
